@@ -195,6 +195,12 @@ def cache_part(ix, rep, rule="R-C40-cache", slots=None, floor=3):
         return
 
     n_carry = 0
+    local_vals = {}
+    for x_ in ast.walk(cp.node):
+        if isinstance(x_, ast.NamedExpr) and isinstance(x_.target, ast.Name):
+            local_vals[x_.target.id] = x_.value
+    for k_, v_ in _inline_single_defs(cp.node).items():
+        local_vals.setdefault(k_, v_)
 
     def visit(body, conds):
         nonlocal n_carry
@@ -221,6 +227,8 @@ def cache_part(ix, rep, rule="R-C40-cache", slots=None, floor=3):
             else:
                 branches = [(v, conds)]
             for e, cs in branches:
+                if isinstance(e, ast.Name) and e.id in local_vals:
+                    e = local_vals[e.id]  # `if (cached := self.__dict__.get("wires")) is not None: new.__dict__["wires"] = cached`
                 reads_self = any(isinstance(x, ast.Attribute) and isinstance(x.value, ast.Name) and x.value.id == "self" for x in ast.walk(e)) \
                     or "self.__dict__" in norm(e)
                 if not reads_self:
